@@ -2,13 +2,11 @@
 // followed by two notify rounds; mute flags, argument values, captured payloads and "handle was moved" bits are symbolic.
 #include <tulz/observer/Subject.h>
 #include "tracked.h"
-extern "C" { void __vf_expect(int id, int a, int b); void __vf_log(int id, int a, int b); void __vf_expect_done(void); void __vf_expect_throw(int kind, int code); void __vf_on_throw(void); }
 using namespace tulz;
 #ifndef SIG
 #define SIG 1
 #endif
 // the skeleton: {OP1,K1,OP2,K2,OP3,K3,NPRE,ROUND0}; defined per query in rt/cube.c (-D at CBMC time), constant at symbolic-execution time
-extern "C" int __vf_cube(int i);
 #define NOBS 4
 struct S { int v; };
 #if SIG == 0
@@ -72,11 +70,11 @@ static void op(int kind, int k) {
     case 4: maybe_move(k); sub[k].unmute(); muted[k] = false; break;
     case 5: maybe_move(k); sub[k].getObserver()->invalidate(); st[k] = INVAL; break;
     case 6: { // unsubscribe a stale handle through the subject: must throw std::invalid_argument and change nothing
-      throwing = true; __vf_expect_throw(2, 0); g_s->unsubscribe(sub[k]); __vf_check(false, "stale handle was accepted"); } break;
+      throwing = true; VF_EXPECT_THROW(2, 0, g_s->unsubscribe(sub[k])); __vf_check(false, "stale handle was accepted"); } break;
     case 7: { // foreign handle (valid for another Subject)
       static Subj other; Sub f = other.subscribe(CB(9, 0)); extra_live = 1; __vf_check(f.isValid(), "foreign handle valid for its own subject");
-      throwing = true; __vf_expect_throw(2, 0); g_s->unsubscribe(f); __vf_check(false, "foreign handle was accepted"); } break;
-    case 8: { Sub d; throwing = true; __vf_expect_throw(2, 0); g_s->unsubscribe(d); __vf_check(false, "default-constructed handle was accepted"); } break;
+      throwing = true; VF_EXPECT_THROW(2, 0, g_s->unsubscribe(f)); __vf_check(false, "foreign handle was accepted"); } break;
+    case 8: { Sub d; throwing = true; VF_EXPECT_THROW(2, 0, g_s->unsubscribe(d)); __vf_check(false, "default-constructed handle was accepted"); } break;
     case 9: round_(); break;
     default: break;
   }
